@@ -7,6 +7,7 @@ import random
 import time
 
 import codec
+import crash
 import dmg
 import gens
 import kv
@@ -519,6 +520,12 @@ reg(HistProp('C07', cfg_c07, probes_scan, quick=150, thorough=3000,
 reg(HistProp('C14', cfg_c01, probes_scan, quick=60, thorough=1000,
              rule='the damage sweep is the byte-level run (coverage.damage); the history part only keeps the log-level model tied',
              nontrivial=has_multi_layout, extra=dmg.c14_extra))
+reg(HistProp('C05', cfg_c07, probes_scan, quick=40, thorough=600,
+             rule='the crash images are the run described in coverage.crash; the history part keeps the Check/Recover reopen '
+                  'model tied', nontrivial=has_multi_layout, extra=crash.c05_extra))
+reg(HistProp('C06', cfg_c07, probes_c02, quick=40, thorough=600,
+             rule='power-loss images: coverage.crash; the history part keeps Sync/NextOffset of the model tied',
+             nontrivial=has_multi_layout, extra=crash.c06_extra))
 reg(HistProp('C20', cfg_c20, probes_c20, quick=400, thorough=12000,
              rule='Log.Backup into fresh directories and repeated into the same directory after publish-only steps; each backup is '
                   'checked (Segment.Check of every file), opened read-write or read-only and fully observed (scan, Get of every '
